@@ -361,6 +361,7 @@ type simNode struct {
 	sweepCrashAt   int
 	walPoisoned    bool
 	poisonIdx      int
+	leakFloor      int64 // base of the block store when this incarnation booted after an earlier one
 	noMarkerAtBoot bool // this incarnation started although its WAL lacked the marker of the previous height
 	repairedAtBoot bool // this incarnation went through OnStart's WAL repair (which replays the WAL twice)
 	durable    *rsSummary // round state as of the last event that ended with an acknowledged WAL sync
@@ -531,6 +532,12 @@ func (n *simNode) boot() {
 	n.nd = node
 	n.cs = node.ConsensusState()
 	n.bstore = node.BlockStore()
+	if n.inc > 0 {
+		// A prune interrupted by the crash moved the base first and never deletes the rest of
+		// its batch (later prunes start at the new base): heights below this base may be left
+		// behind; the reported range [base,height] is what C18 is about (DESIGN 13.4).
+		n.leakFloor = n.bstore.Base()
+	}
 	n.sstore = sm.NewStore(n.dbs["state"], sm.StoreOptions{})
 	if !s.cfg.Bool("real_ticker") {
 		n.ticker = newSimTicker()
